@@ -315,14 +315,26 @@ func c17One(env *Env, m *wvlib.Model, c *C17Case) {
 // than 16 MiB (no checkpoint is popped while files are skipped, so the first checkpoint after the skip refers to a
 // source restart point far behind the reader's offset).
 func c17ResumeBigSkip(env *Env, c *C17Case) {
+	// whether a source checkpoint is still pending when the first series ends depends on the parity of its op
+	// count: try first files of several sizes (the distribution reports how many runs had a checkpoint more than
+	// 16 MiB ahead of its source restart point)
+	for v := 0; v < 4; v++ {
+		c17ResumeBigSkipVariant(env, c, 5+v, v+1)
+	}
+}
+
+func c17ResumeBigSkipVariant(env *Env, c *C17Case, aBlocks, nEdits int) {
 	base := env.Scratch.Sub("wlr")
 	defer os.RemoveAll(base)
-	r := wvlib.NewRng(c.Seed)
-	aOld, cOld := r.Bytes(3*wvlib.BS+100), r.Bytes(4*wvlib.BS+7)
+	r := wvlib.NewRng(c.Seed + uint64(aBlocks))
+	aOld, cOld := r.Bytes(aBlocks*wvlib.BS+100), r.Bytes(4*wvlib.BS+7)
 	edit := func(d []byte) []byte {
-		// an insertion inside block 1: block 0 is kept, block 1 is sent, the rest is re-found (several ops per series)
+		// overwrites inside blocks 1, 3, ...: the blocks in between are kept (several ops per series)
 		e := append([]byte(nil), d...)
-		return append(e[:wvlib.BS+5], append(r.Bytes(100), e[wvlib.BS+5:]...)...)
+		for k := 0; k < nEdits && (2*k+2)*wvlib.BS <= len(e); k++ {
+			copy(e[(2*k+1)*wvlib.BS+5:], r.Bytes(100))
+		}
+		return e
 	}
 	old := &wvlib.Build{Entries: []wvlib.BEntry{{Path: "a_small.bin", Kind: 'f', Data: aOld}, {Path: "c_last.bin", Kind: 'f', Data: cOld}}}
 	nw := &wvlib.Build{Entries: []wvlib.BEntry{{Path: "a_small.bin", Kind: 'f', Data: edit(aOld)}, {Path: "b_big.bin", Kind: 'f', Data: r.Bytes(17<<20 + 333)}, {Path: "c_last.bin", Kind: 'f', Data: edit(cOld)}}}
@@ -359,6 +371,16 @@ func c17ResumeBigSkip(env *Env, c *C17Case) {
 			return
 		}
 		env.R.Count("whitelist-resume:checkpoints:"+comp.Algo, int64(len(sv0.saved)))
+		for _, b := range sv0.saved {
+			if ck, err := decodeCheckpoint(b); err == nil && ck.MessageCheckpoint != nil && ck.MessageCheckpoint.SourceCheckpoint != nil {
+				if d := ck.MessageCheckpoint.Offset - ck.MessageCheckpoint.SourceCheckpoint.Offset; d > 16<<20 {
+					env.R.Count("whitelist-resume:checkpoint-more-than-16MiB-ahead-of-its-source-restart-point:"+comp.Algo, 1)
+				}
+				if os.Getenv("WV_DEBUG") != "" {
+					fmt.Printf("ck file=%d off=%d src=%d\n", ck.FileIndex, ck.MessageCheckpoint.Offset, ck.MessageCheckpoint.SourceCheckpoint.Offset)
+				}
+			}
+		}
 		for k := range sv0.saved {
 			out := fmt.Sprintf("%s/out%d", base, k)
 			sv1 := &recSaver{stopAt: k, every: 1}
@@ -389,7 +411,7 @@ func c17ResumeBigSkip(env *Env, c *C17Case) {
 		}
 		os.RemoveAll(base + "/ref")
 	}
-	env.R.Eval(c.Seed^0x77, true)
+	env.R.Eval(c.Seed^0x77^uint64(aBlocks), true)
 }
 
 // c17Synthetic: a skipped bsdiff series whose target is old file #2049 (needs >= 2050 old files).
